@@ -1,6 +1,6 @@
 ----------------------------- MODULE BulkConsts -----------------------------
 (* Class sets for the Bulk configurations. *)
-ClassesAll == {"IDX", "IDXB", "IDXL", "CRE", "UPD", "DEL", "UNK", "NJ", "DOC", "BAD", "BIG", "EMP"}
+ClassesAll == {"IDX", "IDXB", "IDXL", "CRE", "UPD", "DEL", "UNK", "NJ", "DOC", "NOC", "BAD", "BIG", "EMP"}
 \* the classes the loop's case analysis distinguishes, one representative each (used for the longer bodies)
-ClassesCore == {"IDX", "IDXL", "UPD", "DEL", "NJ", "DOC", "BAD", "BIG", "EMP"}
+ClassesCore == {"IDX", "IDXL", "UPD", "DEL", "NJ", "DOC", "NOC", "BAD", "BIG", "EMP"}
 =============================================================================
